@@ -150,10 +150,14 @@ def _is_len(e):
 
 
 class Runner:
-    def __init__(self, fi, prog=None, fork_values=True, max_paths=3000, unroll=True, stop_at=()):
+    def __init__(self, fi, prog=None, fork_values=True, max_paths=3000, unroll=True, stop_at=(), for_iters=1, keytag=""):
         """stop_at: CFG node ids; a path that reaches one of them ends there (end == 'stop') after evaluating that statement's
-        value expression into path.value."""
+        value expression into path.value.  for_iters: how many iterations of a loop over an unknown iterable are executed before
+        the loop is left (the values written by the body are unknown afterwards); keytag: prefix of the per-occurrence decision
+        keys of loops (distinguishes the activations of a helper executed by FlowRunner)."""
         self.stop_at = set(stop_at)
+        self.for_iters = for_iters
+        self.keytag = keytag
         self.fi = fi
         self.prog = prog
         self.cfg = cfg_of(fi)
@@ -191,6 +195,15 @@ class Runner:
         """The evaluated iterable of a `for` as a display of its elements when the subclass knows them (a dict literal
         iterates over its keys, ...); default: the value itself."""
         return it
+
+    def _make_env(self):
+        return dict(self.initial_env())
+
+    def _make_heap(self):
+        return {}
+
+    def _make_path(self):
+        return RPath()
 
     # ---- driver --------------------------------------------------------------------
     def paths(self):
@@ -604,9 +617,9 @@ class Runner:
     def _run(self, script):
         cfg = self.cfg
         self.script = script
-        self.env = dict(self.initial_env())
-        self.heap = {}
-        self.path = p = RPath()
+        self.env = self._make_env()
+        self.heap = self._make_heap()
+        self.path = p = self._make_path()
         self.state = p.state = self.new_state()
         visits = {}
         iters = {}
@@ -656,7 +669,7 @@ class Runner:
                             self._havoc(node.stmt.body)
                             nid = nxt[0]
                             continue
-                        tag = " @%d#%d" % (nid, n)
+                        tag = " @%s%d#%d" % (self.keytag, nid, n)
                     c = self.truthv(self.ev(node.ast), tag)
                     nid = [d for d, l in normal if l == ("T" if c else "F")][0]
                     continue
@@ -673,9 +686,9 @@ class Runner:
                         if go:
                             self._bind(st.target, it.elts[k], st)
                     else:
-                        go = k == 0 and self.choose("for@%d" % nid)
+                        go = k < self.for_iters and self.choose("for@%s%d%s" % (self.keytag, nid, "#%d" % k if k else ""))
                         if go:
-                            self._bind(st.target, ast.Subscript(value=it, slice=sym("i"), ctx=ast.Load()), st)
+                            self._bind(st.target, ast.Subscript(value=it, slice=sym("i" if k == 0 else "i+%d" % k), ctx=ast.Load()), st)
                         elif k > 0:
                             self._havoc(st.body)
                     nid = [d for d, l in normal if l == ("T" if go else "F")][0]
@@ -1420,3 +1433,485 @@ def byte_parts(e):
             out += p
         return out
     return None
+
+
+# ---------------------------------------------------------------------------
+# FlowRunner: the path runner with local calls executed (used by C11.i).
+#
+# It works on the module *as written* (RawWorld re-parses the source the program was loaded from), not on the engine's
+# canonical form: the clause it serves is about which value a name holds when a call is made, and that is exactly what a
+# helper's default argument (evaluated when the `def` / `lambda` is executed), a closure variable (read when the helper
+# runs), functools.partial (arguments evaluated when the partial is made) and a plain parameter differ in.  Callables are
+# values: a nested def, a lambda, functools.partial of either or of a bound method, a method of the same class called
+# through self, a function of the same module.  Calling one executes its body on the current path (one activation per
+# call, decisions shared with the caller's path), with Python's binding rules:
+#   * default expressions are evaluated once, where the def / lambda is executed;
+#   * a free variable of a nested function denotes the enclosing activation's variable at the time of the call
+#     (ScopeEnv falls back to the live environment of the definer; `nonlocal` writes go there);
+#   * names assigned in the callee are its own.
+# Every call through an attribute (`x.m(...)`) that is not executed is recorded as ('ecall', call, fi) with evaluated
+# receiver and arguments.
+
+
+class ScopeEnv(dict):
+    def __init__(self, parent, local_names, nonlocal_names=()):
+        dict.__init__(self)
+        self.parent = parent
+        self.local_names = set(local_names)
+        self.nonlocal_names = set(nonlocal_names)
+
+    def _outer(self, k):
+        return self.parent is not None and k not in self.local_names
+
+    def __contains__(self, k):
+        return dict.__contains__(self, k) or (self._outer(k) and k in self.parent)
+
+    def __getitem__(self, k):
+        if dict.__contains__(self, k):
+            return dict.__getitem__(self, k)
+        if self._outer(k):
+            return self.parent[k]
+        raise KeyError(k)
+
+    def get(self, k, default=None):
+        try:
+            return self[k]
+        except KeyError:
+            return default
+
+    def __setitem__(self, k, v):
+        if k in self.nonlocal_names and self.parent is not None:
+            self.parent[k] = v
+        else:
+            dict.__setitem__(self, k, v)
+
+
+class Closure:
+    """A callable value.  node: FunctionDef / AsyncFunctionDef / Lambda (None for a partial of a foreign callable);
+    fi: the FuncInfo to execute (enclosing one for a lambda); env: environment of the definer (None: module level);
+    defaults / kwdefaults: parameter name -> value evaluated at definition; pre_args / pre_kw: bound by partial (or self);
+    target: the evaluated foreign callable of a partial."""
+
+    def __init__(self, node, fi, env, defaults, pre_args=(), pre_kw=None, target=None):
+        self.node, self.fi, self.env, self.defaults = node, fi, env, defaults
+        self.pre_args, self.pre_kw, self.target = list(pre_args), dict(pre_kw or {}), target
+
+    def partial(self, args, kw):
+        k2 = dict(self.pre_kw)
+        k2.update(kw)
+        return Closure(self.node, self.fi, self.env, self.defaults, self.pre_args + list(args), k2, self.target)
+
+
+def closure_of(v):
+    return getattr(v, "_closure", None) if isinstance(v, ast.Name) else None
+
+
+def _own_nodes(fnode):
+    body = fnode.body if isinstance(fnode.body, list) else [fnode.body]
+    for st in body:
+        yield from walk_no_nested(st)
+
+
+def _memo_on_node(fn):
+    def wrapped(fnode):
+        cache = fnode.__dict__.setdefault("_c11_memo", {})
+        if fn.__name__ not in cache:
+            cache[fn.__name__] = fn(fnode)
+        return cache[fn.__name__]
+    wrapped.__name__ = fn.__name__
+    wrapped.__doc__ = fn.__doc__
+    return wrapped
+
+
+@_memo_on_node
+def local_names_of(fnode):
+    a = fnode.args
+    names = {x.arg for x in a.posonlyargs + a.args + a.kwonlyargs}
+    if a.vararg:
+        names.add(a.vararg.arg)
+    if a.kwarg:
+        names.add(a.kwarg.arg)
+    outer = set()
+    for n in _own_nodes(fnode):
+        if isinstance(n, ast.Name) and isinstance(n.ctx, (ast.Store, ast.Del)):
+            names.add(n.id)
+        elif isinstance(n, (ast.FunctionDef, ast.AsyncFunctionDef, ast.ClassDef)):
+            names.add(n.name)
+        elif isinstance(n, ast.ExceptHandler) and n.name:
+            names.add(n.name)
+        elif isinstance(n, (ast.Import, ast.ImportFrom)):
+            for al in n.names:
+                names.add((al.asname or al.name).split(".")[0])
+        elif isinstance(n, (ast.Nonlocal, ast.Global)):
+            outer.update(n.names)
+    return names - outer, outer
+
+
+@_memo_on_node
+def is_generator(fnode):
+    return any(isinstance(n, (ast.Yield, ast.YieldFrom)) for n in _own_nodes(fnode))
+
+
+@_memo_on_node
+def is_simple_body(fnode):
+    """A short straight-line / if-only function: always worth executing."""
+    if isinstance(fnode, ast.Lambda):
+        return True
+    k = 0
+    for n in _own_nodes(fnode):
+        if isinstance(n, (ast.For, ast.AsyncFor, ast.While, ast.Try, ast.With, ast.AsyncWith, ast.Match)) or (hasattr(ast, "TryStar") and isinstance(n, ast.TryStar)):
+            return False
+        if isinstance(n, ast.stmt):
+            k += 1
+    return k <= 15
+
+
+class RawModule:
+    def __init__(self, mod, make_fi):
+        self.mod = mod
+        self.funcs = {}    # module-level function name -> FuncInfo
+        self.classes = {}  # class name -> (ClassDef, {method name: FuncInfo}, [base names])
+        self._scope(mod.tree.body, make_fi)
+
+    def _scope(self, body, make_fi):
+        for st in body:
+            if isinstance(st, (ast.FunctionDef, ast.AsyncFunctionDef)):
+                self.funcs.setdefault(st.name, make_fi(self.mod, st, None, None))
+            elif isinstance(st, ast.ClassDef):
+                methods = {}
+                for s2 in st.body:
+                    if isinstance(s2, (ast.FunctionDef, ast.AsyncFunctionDef)):
+                        methods.setdefault(s2.name, make_fi(self.mod, s2, st.name, None))
+                self.classes.setdefault(st.name, (st, methods, [b.id for b in st.bases if isinstance(b, ast.Name)]))
+            elif isinstance(st, (ast.If, ast.Try)):
+                for sub in ("body", "orelse", "finalbody"):
+                    self._scope(getattr(st, sub, []) or [], make_fi)
+                for h in getattr(st, "handlers", []) or []:
+                    self._scope(h.body, make_fi)
+
+    def method(self, clsname, name, seen=()):
+        if clsname not in self.classes or clsname in seen:
+            return None
+        _, methods, bases = self.classes[clsname]
+        if name in methods:
+            return methods[name]
+        for b in bases:
+            m = self.method(b, name, seen + (clsname,))
+            if m is not None:
+                return m
+        return None
+
+    def all_functions(self):
+        out = list(self.funcs.values())
+        for _, methods, _ in self.classes.values():
+            out.extend(methods.values())
+        return out
+
+
+class RawWorld:
+    """The modules of the program as written (parsed again from the source text the program was loaded from, i.e. including a
+    self-test seed), indexed by name: module-level functions, classes and their methods."""
+
+    def __init__(self, prog):
+        from ..model import Module, FuncInfo
+        self.prog = prog
+        self._Module, self._FuncInfo = Module, FuncInfo
+        self._mods = {}
+
+    def _make_fi(self, mod, node, clsname, parent):
+        if parent is not None:
+            qn = parent.qn + ".<locals>." + node.name
+        else:
+            qn = mod.name + ("." + clsname if clsname else "") + "." + node.name
+        fi = self._FuncInfo(qn, node, mod, None, parent)
+        fi.rawcls = clsname if parent is None else None
+        return fi
+
+    def nested_fi(self, parent, node):
+        cache = parent.__dict__.setdefault("_nested_fi", {})
+        if id(node) not in cache:
+            cache[id(node)] = self._make_fi(parent.module, node, None, parent)
+        return cache[id(node)]
+
+    def module(self, name):
+        if name not in self._mods:
+            m = self.prog.modules[name]
+            raw = self._Module(m.name, m.path, m.src, m.is_pkg)
+            raw.imports = m.imports
+            self._mods[name] = RawModule(raw, self._make_fi)
+        return self._mods[name]
+
+    def of(self, fi):
+        return self.module(fi.module.name)
+
+
+def _selfname(fi):
+    """Name of the receiver parameter of a plain method (None for functions, static and class methods)."""
+    top = fi
+    while top.parent is not None:
+        top = top.parent
+    if getattr(top, "rawcls", None) is None:
+        return None
+    deco = [chain(d) or "" for d in top.node.decorator_list]
+    if "staticmethod" in deco or "classmethod" in deco:
+        return None
+    a = top.node.args
+    ps = a.posonlyargs + a.args
+    return ps[0].arg if ps else None
+
+
+class FlowRunner(Runner):
+    def __init__(self, fi, prog, world, interesting=None, top=None, parent_env=None, bound=None, **kw):
+        """interesting(fnode) -> bool: a helper that must be executed (the clause's effect sites are inside); other helpers are
+        executed when they are short and loop-free, and stay opaque calls otherwise."""
+        Runner.__init__(self, fi, prog, **kw)
+        self.world = world
+        self.top = top or self
+        self.interesting = interesting if top is None else top.interesting
+        self.parent_env = parent_env
+        self.bound = bound
+        if top is None:
+            self.selfname = _selfname(fi)
+            self.topcls = fi.rawcls if fi.parent is None else None
+            t = fi
+            while t.parent is not None:
+                t = t.parent
+            self.topcls = getattr(t, "rawcls", None)
+            self.ncalls = 0
+            self.depth = 0
+            self._dig_memo = {}
+            self._dig_table = {}
+            self.executed = set()  # id(def node) of every helper executed on some path
+
+    # ---- decision keys ----------------------------------------------------------------------
+    # The same normalisation as paths.atom_key (negations, != / is not / not in, mirrored operands, >= are the same atom), but over
+    # interned structure numbers instead of the source text of the evaluated condition: the values of this runner are deeply nested
+    # expressions with shared sub-terms, and printing them for every test dominates the run time.
+    def _dig(self, e):
+        top = self.top
+        memo, table = top._dig_memo, top._dig_table
+        hit = memo.get(id(e))
+        if hit is not None and hit[0] is e:
+            return hit[1]
+        if isinstance(e, ast.AST):
+            parts = [type(e).__name__]
+            for f in e._fields:
+                if f in ("ctx", "type_comment", "kind"):
+                    continue
+                parts.append(self._dig(getattr(e, f, None)))
+            key = tuple(parts)
+        elif isinstance(e, list):
+            key = ("[]",) + tuple(self._dig(x) for x in e)
+        else:
+            key = ("v", type(e).__name__, repr(e))
+        n = table.setdefault(key, len(table))
+        if isinstance(e, ast.AST):
+            memo[id(e)] = (e, n)
+        return n
+
+    def decide(self, cond):
+        e, pol = cond, True
+        while isinstance(e, ast.UnaryOp) and isinstance(e.op, ast.Not):
+            e, pol = e.operand, not pol
+        d = self._dig
+        if isinstance(e, ast.Compare) and len(e.ops) == 1:
+            op, l, r = e.ops[0], e.left, e.comparators[0]
+            if isinstance(op, (ast.Eq, ast.NotEq, ast.Is, ast.IsNot)):
+                a, b = sorted([d(l), d(r)])
+                return "E%d,%d" % (a, b), pol == isinstance(op, (ast.Eq, ast.Is))
+            if isinstance(op, (ast.In, ast.NotIn)):
+                if isinstance(r, (ast.Tuple, ast.List, ast.Set)):
+                    k = "I%d{%s}" % (d(l), ",".join(str(x) for x in sorted(d(x) for x in r.elts)))
+                else:
+                    k = "I%d,%d" % (d(l), d(r))
+                return k, pol == isinstance(op, ast.In)
+            if isinstance(op, ast.Lt):
+                return "L%d,%d" % (d(l), d(r)), pol
+            if isinstance(op, ast.Gt):
+                return "L%d,%d" % (d(r), d(l)), pol
+            if isinstance(op, ast.GtE):
+                return "L%d,%d" % (d(l), d(r)), not pol
+            if isinstance(op, ast.LtE):
+                return "L%d,%d" % (d(r), d(l)), not pol
+        return "T%d" % d(e), pol
+
+    # ---- environments shared along the path -------------------------------------------
+    def _make_env(self):
+        if self.top is self:
+            self.ncalls = 0
+            self.depth = 0
+            return dict(self.initial_env())
+        loc, outer = local_names_of(self.fi.node)
+        env = ScopeEnv(self.parent_env, loc, outer if self.parent_env is not None else ())
+        for k, v in self.bound.items():
+            dict.__setitem__(env, k, v)
+        return env
+
+    def _make_heap(self):
+        return {} if self.top is self else self.top.heap
+
+    def _make_path(self):
+        p = RPath()
+        if self.top is not self:
+            tp = self.top.path
+            p.events, p.conds, p.facts = tp.events, tp.conds, tp.facts
+        return p
+
+    # ---- callables as values -------------------------------------------------------------
+    def _closure_sym(self, text, clo):
+        s = sym(text)
+        s._closure = clo
+        return s
+
+    def _defaults(self, a):
+        pos = [x.arg for x in a.posonlyargs + a.args]
+        d = {}
+        for name, e in zip(pos[len(pos) - len(a.defaults):], a.defaults):
+            d[name] = self.ev(e)
+        for k, e in zip(a.kwonlyargs, a.kw_defaults):
+            if e is not None:
+                d[k.arg] = self.ev(e)
+        return d
+
+    def ev(self, e, bound=frozenset()):
+        if isinstance(e, ast.Lambda) and not bound:
+            return self._closure_sym("lambda@%d:%d" % (e.lineno, e.col_offset), Closure(e, self.fi, self.env, self._defaults(e.args)))
+        return Runner.ev(self, e, bound)
+
+    def _exec(self, node):
+        st = node.ast
+        if node.kind == "stmt" and isinstance(st, (ast.FunctionDef, ast.AsyncFunctionDef)) and not st.decorator_list:
+            fi = self.world.nested_fi(self.fi, st)
+            self.env[st.name] = self._closure_sym("def %s" % st.name, Closure(st, fi, self.env, self._defaults(st.args)))
+            return
+        Runner._exec(self, node)
+
+    def _resolve(self, call):
+        """The Closure an evaluated call goes to, or None."""
+        f = call.func
+        clo = closure_of(f)
+        if clo is not None:
+            return clo
+        top = self.top
+        rm = self.world.of(self.fi)
+        if isinstance(f, ast.Attribute) and isinstance(f.value, ast.Name) and top.selfname is not None and f.value.id == top.selfname and top.topcls is not None \
+                and top.selfname not in top.env:
+            m = rm.method(top.topcls, f.attr)
+            if m is not None and not m.node.decorator_list:
+                return Closure(m.node, m, None, None, pre_args=[f.value])
+        if isinstance(f, ast.Name) and f.id not in self.env and f.id in rm.funcs and not rm.funcs[f.id].node.decorator_list:
+            m = rm.funcs[f.id]
+            return Closure(m.node, m, None, None)
+        return None
+
+    def _is_partial(self, call):
+        c = chain(call.func)
+        if c is None or c.split(".")[0] in self.env:
+            return False
+        try:
+            return self.prog.resolve_in_module(self.fi.module, c) == "functools.partial"
+        except Exception:
+            return False
+
+    def eval_hook(self, e):
+        if not isinstance(e, ast.Call):
+            return None
+        if self._is_partial(e) and e.args and not any(isinstance(a, ast.Starred) for a in e.args) and all(k.arg is not None for k in e.keywords):
+            inner = closure_of(e.args[0])
+            kw = {k.arg: k.value for k in e.keywords}
+            if inner is None:
+                tmp = ast.Call(func=e.args[0], args=[], keywords=[])
+                inner = self._resolve(tmp) or Closure(None, None, None, None, target=e.args[0])
+            return self._closure_sym("partial@%d:%d" % (e.lineno, e.col_offset), inner.partial(e.args[1:], kw))
+        clo = self._resolve(e)
+        if clo is not None:
+            r = self._call(clo, e)
+            if r is not None:
+                return r
+        if isinstance(e.func, ast.Attribute):
+            self.path.events.append(("ecall", e, self.fi))
+        return None
+
+    def _must_run(self, fnode):
+        return fnode is not None and self.interesting is not None and self.interesting(fnode)
+
+    def _call(self, clo, call):
+        if any(isinstance(a, ast.Starred) for a in call.args) or any(k.arg is None for k in call.keywords):
+            return self._opaque(clo, "the call uses * / **")
+        args = clo.pre_args + list(call.args)
+        kw = dict(clo.pre_kw)
+        for k in call.keywords:
+            kw[k.arg] = k.value
+        if clo.node is None:
+            # partial of a foreign callable: the call it stands for, made now with the arguments bound then
+            c2 = ast.copy_location(ast.Call(func=clo.target, args=args, keywords=[ast.keyword(arg=k, value=v) for k, v in kw.items()]), call)
+            r = self.eval_hook(c2)
+            return r if r is not None else c2
+        fn = clo.node
+        a = fn.args
+        if a.vararg or a.kwarg:
+            return self._opaque(clo, "the helper takes * / **")
+        names = [x.arg for x in a.posonlyargs + a.args]
+        kwonly = [x.arg for x in a.kwonlyargs]
+        if len(args) > len(names):
+            return self._opaque(clo, "too many arguments")
+        bound = dict(zip(names, args))
+        for k, v in kw.items():
+            if k in bound or k not in names + kwonly:
+                return self._opaque(clo, "unexpected keyword %s" % k)
+            bound[k] = v
+        defaults = clo.defaults
+        if defaults is None:
+            # a method / module-level function: its defaults were evaluated at import (no local of the analysed function is visible there)
+            defaults = {}
+            pos = names
+            for name, d in zip(pos[len(pos) - len(a.defaults):], a.defaults):
+                defaults[name] = d
+            for k, d in zip(a.kwonlyargs, a.kw_defaults):
+                if d is not None:
+                    defaults[k.arg] = d
+        for n in names + kwonly:
+            if n not in bound:
+                if n not in defaults:
+                    return self._opaque(clo, "parameter %s unbound" % n)
+                bound[n] = defaults[n]
+        top = self.top
+        if isinstance(fn, ast.Lambda):
+            saved = self.env
+            env = ScopeEnv(clo.env, set(bound))
+            for k, v in bound.items():
+                dict.__setitem__(env, k, v)
+            self.env = env
+            try:
+                return self.ev(fn.body)
+            finally:
+                self.env = saved
+        if is_generator(fn):
+            return self._opaque(clo, "the helper is a generator")
+        if not (self._must_run(fn) or is_simple_body(fn)):
+            return None
+        if top.depth >= 8:
+            return self._opaque(clo, "helpers nested too deeply (recursion?)")
+        top.ncalls += 1
+        top.executed.add(id(fn))
+        child = type(self)(clo.fi, self.prog, self.world, top=top, parent_env=clo.env, bound=bound, fork_values=self.fork_values,
+                           max_paths=self.max_paths, unroll=self.unroll, for_iters=self.for_iters, keytag="c%d/" % top.ncalls)
+        top.depth += 1
+        saved_nid = self.nid
+        try:
+            p = child._run(self.script)
+        finally:
+            top.depth -= 1
+            self.nid = saved_nid
+        if p.end == "return":
+            return p.value
+        if p.end == "fall":
+            return ast.copy_location(ast.Constant(value=None), call)
+        if p.end == "raise":
+            raise PyRaise(p.exc)
+        raise AnalysisError("C11 flow runner: helper %s does not end normally on a path (%s)" % (clo.fi.short, p.end))
+
+    def _opaque(self, clo, why):
+        if self._must_run(clo.node):
+            raise AnalysisError("C11 flow runner: cannot execute helper %s in %s: %s" % (getattr(clo.node, "name", "<lambda>"), self.fi.short, why))
+        return None
